@@ -33,6 +33,16 @@ def check_invariants(iw):
             return 'two live %s objects named %r (h%d, h%d)' % (cls.__name__, name, seen_name[(cls, name)], h)
         seen_name[(cls, name)] = h
         ck = (cls, repr(canon))
+        if hasattr(o, 'rotate_pt') and getattr(o, 'structure', None) is not None:
+            # independent notion of "the same complex": the smallest rotation computed by the reference algorithm
+            try:
+                from . import ref
+                ik = (cls, 'rotation-class', min(ref.rotations([str(x) for x in o.sequence], list(o.structure))))
+                if ik in seen_canon:
+                    return 'two live %s objects for one rotation class (h%d, h%d)' % (cls.__name__, seen_canon[ik], h)
+                seen_canon[ik] = h
+            except Exception:
+                pass
         if ck in seen_canon:
             return 'two live %s objects with canonical form %r (h%d, h%d)' % (cls.__name__, canon, seen_canon[ck], h)
         seen_canon[ck] = h
